@@ -214,6 +214,8 @@ pub fn pe(e: &E, ind: usize) -> String {
             }
         }
         // `if (c) (e)` would be read as the call `(c)(e)`: a then-branch that starts with a parenthesis goes into a block
+        // an empty block as the else arm stands for "no else" (a conditional statement of unit type)
+        E::If(c, t, el) if matches!(&**el, E::Block(ss, None) if ss.is_empty()) => format!("if ({}) {}", pe(c, ind), pbranch(t, ind)),
         E::If(c, t, el) => format!("if ({}) {} else {}", pe(c, ind), pbranch(t, ind), pbranch(el, ind)),
         E::Block(ss, r) => {
             let mut o = String::from("{\n");
